@@ -214,9 +214,27 @@ func c16CheckEq(c c16EqCase) h.Result {
 	judge("EdwardsPoint.ExpandedTripleScalarMulBasepointVartime", res.ExpandedTripleScalarMulBasepointVartime(a, expA, b, C))
 	unchanged("EdwardsPoint.ExpandedTripleScalarMulBasepointVartime")
 
+	// 1b. the receiver is one of the operands (as for every operation of this API)
+	al := NewEdwardsPoint().Set(A)
+	judge("EdwardsPoint.TripleScalarMulBasepointVartime(receiver-is-A)", al.TripleScalarMulBasepointVartime(a, al, b, C))
+	al = NewEdwardsPoint().Set(C)
+	judge("EdwardsPoint.TripleScalarMulBasepointVartime(receiver-is-C)", al.TripleScalarMulBasepointVartime(a, A, b, al))
+	al = NewEdwardsPoint().Set(C)
+	judge("EdwardsPoint.ExpandedTripleScalarMulBasepointVartime(receiver-is-C)", al.ExpandedTripleScalarMulBasepointVartime(a, expA, b, al))
+	// 1c. a by-value snapshot of the precomputed key keeps standing for A after
+	// the original has been re-set to another point
+	expS := NewExpandedEdwardsPoint(A)
+	snapA := *expS
+	expS.SetEdwardsPoint(ED25519_BASEPOINT_POINT)
+	res = EdwardsPoint{}
+	judge("EdwardsPoint.ExpandedTripleScalarMulBasepointVartime(value-copy,original-reset)", res.ExpandedTripleScalarMulBasepointVartime(a, &snapA, b, C))
+	unchanged("EdwardsPoint.TripleScalarMulBasepointVartime(aliased)")
+
 	// 2. generic code called explicitly (it is what runs without AVX2)
 	res = EdwardsPoint{}
 	judge("edwardsMulAbglsvPorninVartimeGeneric", edwardsMulAbglsvPorninVartimeGeneric(&res, a, A, b, C))
+	alG := NewEdwardsPoint().Set(A)
+	judge("edwardsMulAbglsvPorninVartimeGeneric(receiver-is-A)", edwardsMulAbglsvPorninVartimeGeneric(alG, a, alG, b, C))
 	tblG := newProjectiveNielsPointNafLookupTable(A)
 	expG := &ExpandedEdwardsPoint{inner: &tblG}
 	expG.point.Set(A)
@@ -228,6 +246,8 @@ func c16CheckEq(c c16EqCase) h.Result {
 		r.Class("vector")
 		res = EdwardsPoint{}
 		judge("edwardsMulAbglsvPorninVartimeVector", edwardsMulAbglsvPorninVartimeVector(&res, a, A, b, C))
+		alV := NewEdwardsPoint().Set(A)
+		judge("edwardsMulAbglsvPorninVartimeVector(receiver-is-A)", edwardsMulAbglsvPorninVartimeVector(alV, a, alV, b, C))
 		tblV := newCachedPointNafLookupTable(A)
 		expV := &ExpandedEdwardsPoint{innerVector: &tblV}
 		expV.point.Set(A)
@@ -247,6 +267,11 @@ func c16CheckEq(c c16EqCase) h.Result {
 		r.Eval(2)
 		if got := rRes.TripleScalarMulBasepointVartime(a, &rA, b, &rC).IsIdentity(); got != truth {
 			r.Fail("RistrettoPoint.TripleScalarMulBasepointVartime:wrong-decision", "a=%x A=%x b=%x C=%x truth=%v got=%v", []byte(c.Sa), encA, []byte(c.Sb), encC, truth, got)
+		}
+		var rAl RistrettoPoint
+		rAl.inner.Set(A)
+		if got := rAl.TripleScalarMulBasepointVartime(a, &rAl, b, &rC).IsIdentity(); got != truth {
+			r.Fail("RistrettoPoint.TripleScalarMulBasepointVartime(receiver-is-A):wrong-decision", "a=%x A=%x b=%x C=%x truth=%v got=%v", []byte(c.Sa), encA, []byte(c.Sb), encC, truth, got)
 		}
 		expR := NewExpandedRistrettoPoint(&rA)
 		var rRes2 RistrettoPoint
